@@ -40,14 +40,19 @@ func errClass(err error) string {
 func compareSelect(ctx context.Context, r *rt.Rec, q *bq.Query, data bq.Data, class string, chanSize int) int {
 	text := q.Text()
 	r.Begin(text)
+	lo, hi := q.Bounds()
+	envs, ok := bq.SolveMax(q.Clauses, q.Graphs, data, lo, hi, 1500)
+	if !ok {
+		// cross products of unrelated clauses: too big to be a useful case
+		r.Count("skipped_too_many_solutions", 1)
+		return -1
+	}
 	r.Eval(1)
 	st := bq.NewStore(ctx, data)
 	tbl, stage, err := bq.Run(ctx, st, text, chanSize, 10)
 	w := func() map[string]interface{} {
 		return map[string]interface{}{"statement": text, "data": bq.DataStrings(data)}
 	}
-	lo, hi := q.Bounds()
-	envs := bq.Solve(q.Clauses, q.Graphs, data, lo, hi)
 	want := bq.ProjectRows(envs, q.Vars)
 	if err != nil {
 		ww := w()
@@ -277,7 +282,11 @@ func c03Random(r *rt.Rec, rng *rand.Rand, n int) {
 	var data bq.Data
 	for i := 0; i < n; i++ {
 		if i%20 == 0 {
-			data = gen.DataSet(rng, 1+rng.Intn(3), 8+rng.Intn(18), false)
+			if rng.Intn(2) == 0 {
+				data = gen.DataSet(rng, 1+rng.Intn(3), 8+rng.Intn(18), false)
+			} else {
+				data = gen.DenseDataSet(rng, 1+rng.Intn(3), 8+rng.Intn(16), false)
+			}
 		}
 		all := gen.AllTriples(data)
 		cs := gen.RandomPattern(rng, shapes, all, 2+rng.Intn(3))
